@@ -19,12 +19,21 @@ def emitter(ctx):
     return st, ref.node
 
 
-def tagged_appends(fn):
-    """[(tag, append-call-node, value-expr)] in source order"""
+def tagged_appends(fn, repo=None, module=None):
+    """[(tag, append-call-node, value-expr)] in source order; a tag written as a module-level constant
+    (HOST_PREFIX + label) is folded when the repo is given"""
     out = []
     for node in ast.walk(fn):
         if isinstance(node, ast.Call) and isinstance(node.func, ast.Attribute) and node.func.attr in ("append",) and len(node.args) == 1:
             a = node.args[0]
+            if repo is not None and isinstance(a, ast.BinOp) and isinstance(a.op, ast.Add) and isinstance(a.left, (ast.Name, ast.Attribute)):
+                try:
+                    v = repo.ceval(module, a.left)
+                except Unknown:
+                    v = None
+                if isinstance(v, str) and re.fullmatch(r"[a-z]:", v):
+                    out.append((v[0], node, a.right))
+                    continue
             if isinstance(a, ast.BinOp) and isinstance(a.op, ast.Add) and isinstance(a.left, ast.Constant) and isinstance(a.left.value, str) and re.fullmatch(r"[a-z]:", a.left.value):
                 out.append((a.left.value[0], node, a.right))
             elif isinstance(a, ast.JoinedStr) and a.values and isinstance(a.values[0], ast.Constant) and re.match(r"[a-z]:", str(a.values[0].value)):
@@ -136,7 +145,7 @@ def rule_serialization(ctx, rule):
 def rule_order(ctx, rule):
     ctx.rule(rule, "emission order: the tagged appends of lru_stems_from_parsed_url occur in the order s < t < h* < p* < q < f < u < w (program order); host labels iterate reversed(...), path segments forward over split('/')[1:]; under suffix_aware the suffix is one stem emitted before the remaining labels, which are only emitted when the domain part is non-empty")
     st, fn = emitter(ctx)
-    apps = tagged_appends(fn)
+    apps = tagged_appends(fn, ctx.repo, st)
     seq = [t for t, _, _ in apps]
     ranks = [ORDER.get(t, 99) for t in seq]
     ctx.ob(rule, "order", ranks == sorted(ranks), "lru_stems_from_parsed_url emits stems in the order %s: an ancestor's LRU is no longer a prefix of its descendants'" % " ".join(seq), st.site(fn), sample="emission order: %s" % " ".join(seq))
@@ -191,7 +200,7 @@ def rule_emission_guards(ctx, rule):
     st, fn = emitter(ctx)
     own = {"s": {"scheme"}, "q": {"query"}, "f": {"fragment"}, "u": {"user"}, "w": {"password"}, "t": {"netloc", "port"}}
     shared = {"suffix_aware", "should_process_normally", "split_result", "domain", "netloc"}
-    for tag, call, val in tagged_appends(fn):
+    for tag, call, val in tagged_appends(fn, ctx.repo, st):
         if tag not in own:
             continue
         stmt = stmt_of(fn, call)
